@@ -427,7 +427,7 @@ def misspelt(spec, acc):
         sf = (fk, bad) if pos in ("subject", "both") else ("named", good)
         of = (fk, bad) if pos in ("object", "both") else ("named", good)
         cfg = {"verb": "should_not" if anything else verb, "dir": d, "exc": exc, "subs": [sf], "objs": [] if anything else [of], "anything": anything}
-        if rnd.random() < 0.2 and not anything and fk != "regex":
+        if rnd.random() < 0.35 and not anything and fk != "regex":
             # a batch in which only one member is misspelt
             # ... often next to the very module it is a misspelling / a too-deep descendant of
             g2 = real if (real in present and rnd.random() < 0.6) else good
